@@ -6,6 +6,7 @@
      z     zck_reset_failed_chunks(target)
      c<k>  zck_copy_chunks(source k, target)
      m<k>  zck_find_matching_chunks(source k, target)
+     H<k>  zck_generate_hashdb(source k)   (rebuilds the lookup tables of the source; no visible effect)
      M<j><k> zck_find_matching_chunks(source j, source k)   (only the flags of source k change)
    After every op: return value, valid flags, pairing (tgt->src: '-' unset, '=' itself,
    <k>:<n> chunk n of source k), and the whole target file in hex.  At the end, per source,
@@ -59,6 +60,32 @@ static void dump(zckCtx *tgt, zckCtx **src, int nsrc, const char *tpath) {
     close(cfd);
 }
 
+/* a write-mode context holding the same chunks as the read context r (same options), not closed - the state in which
+   test/zck_cmp_uncomp.c pairs a freshly chunked image with a published file; r is freed */
+static zckCtx *rewrite_as_writer(zckCtx *r) {
+    zckCtx *w = zck_create();
+    int nul = open("/dev/null", O_WRONLY);
+    int ok = w && zck_init_write(w, nul);
+    ok = ok && zck_set_ioption(w, ZCK_COMP_TYPE, r->comp.type);
+    ok = ok && zck_set_ioption(w, ZCK_HASH_FULL_TYPE, zck_get_full_hash_type(r));
+    ok = ok && zck_set_ioption(w, ZCK_HASH_CHUNK_TYPE, zck_get_chunk_hash_type(r));
+    if(ok && r->has_uncompressed_source) ok = zck_set_ioption(w, ZCK_UNCOMP_HEADER, 1);
+    ok = ok && zck_set_ioption(w, ZCK_MANUAL_CHUNK, 1);
+    int first = 1;
+    for(zckChunk *c = zck_get_first_chunk(r); c && ok; c = zck_get_next_chunk(c)) {
+        ssize_t n = zck_get_chunk_size(c);
+        char *buf = malloc(n > 0 ? n : 1);
+        if(n > 0 && zck_get_chunk_data(c, buf, n) != n) ok = 0;
+        if(ok && first) { if(n > 0) ok = zck_set_soption(w, ZCK_COMP_DICT, buf, n); }
+        else if(ok) { if(n > 0 && zck_write(w, buf, n) != n) ok = 0; if(ok && zck_end_chunk(w) < 0) ok = 0; }
+        first = 0;
+        free(buf);
+    }
+    zck_free(&r);
+    if(!ok) { zck_free(&w); return NULL; }
+    return w;
+}
+
 int main(void) {
     zck_set_log_level(ZCK_LOG_NONE);
     zh_apply_limits();
@@ -77,9 +104,11 @@ int main(void) {
         for(int k = 0; k < nsrc; k++) {
             tok = strtok_r(NULL, " ", &save);
             if(!tok) { bad = 1; nsrc = k; break; }
-            sfd[k] = store(dir, tok, spath[k], sizeof spath[k], O_RDONLY);
+            int wmode = tok[0] == 'W';      /* W<hex>: the source is a WRITE-mode context that has just written this file's chunks */
+            sfd[k] = store(dir, tok + wmode, spath[k], sizeof spath[k], O_RDONLY);
             src[k] = zck_create();
             if(!zck_init_read(src[k], sfd[k])) { zck_free(&src[k]); src[k] = NULL; }
+            if(wmode && src[k]) src[k] = rewrite_as_writer(src[k]);
         }
         char *th = strtok_r(NULL, " ", &save), *ops = strtok_r(NULL, " ", &save);
         if(bad || !th || !ops) { printf("BADCASE\n"); fflush(stdout); alarm(0); continue; }
@@ -95,6 +124,7 @@ int main(void) {
             case 'f': printf(" f=%d", zck_find_valid_chunks(tgt)); break;
             case 'z': zck_reset_failed_chunks(tgt); printf(" z=1"); break;
             case 'c': if(k < nsrc && src[k]) printf(" c%d=%d", k, zck_copy_chunks(src[k], tgt)); else printf(" c%d=nosrc", k); break;
+            case 'H': if(k < nsrc && src[k]) printf(" H%d=%d", k, zck_generate_hashdb(src[k]) ? 1 : 0); else printf(" H%d=nosrc", k); break;
             case 'M': {   /* M<j><k>: zck_find_matching_chunks(source j, source k): sets flags on source k from the indexes alone */
                 int j = o[1] - '0', k2 = o[2] - '0';
                 if(j >= 0 && j < nsrc && k2 >= 0 && k2 < nsrc && src[j] && src[k2]) printf(" M%d%d=%d", j, k2, zck_find_matching_chunks(src[j], src[k2]));
